@@ -819,6 +819,29 @@ def part_fetch_diff(ctx):
     return p
 
 
+def part_adapter(ctx):
+    """the StreamingPull request adapter (services.VerifAdaptIn, hook) against Adapter.adapt_in"""
+    p = Part("streaming-pull-request-adapter")
+    d = os.path.join(ctx["work"], "adapter")
+    rc, out = harness(["adapter-diff", "-seed", str(ctx["seed"]), "-n", "400" if QUICK(ctx) else "6000", "-out", d], timeout=600)
+    if rc != 0:
+        p.violation("harness-failed", "adapter-diff failed: " + out[-1500:], dict(log=out[-3000:]), found_input=False)
+        return p
+    info = json.load(open(os.path.join(d, "adapter.json")))
+    p.evaluations = info["n"]
+    p.nontrivial = info["stats"].get("accepted", 0)
+    p.traces = info["n"]
+    p.samples = info["cases"][:3]
+    p.info = info["stats"]
+
+    def bad(f, n, lst):
+        idx = [int(x) for x in re.findall(r"(\d+)%nat", lst)]
+        p.violation("adapter-differs", "streamWrapper.adaptIn translates a StreamingPull request differently from Adapter.adapt_in (ack ids, deadline ids, the one deadline of the request, flow control): %s" %
+                    json.dumps([info["cases"][i] for i in idx[:2]])[:900], dict(kind="adapter-diff", cases=[info["cases"][i] for i in idx[:10]], seed=ctx["seed"]))
+    _eval_dir(p, d, "adapter.v", ["bad"], bad)
+    return p
+
+
 def stream_part(own):
     """the production MessageStreamer against a scripted client (and through the StreamingPull RPC);
     [own] says which violation keys belong to the property being checked"""
@@ -830,7 +853,7 @@ def stream_part(own):
 STREAM_C11 = ("bound-messages", "bound-bytes", "stall", "head-of-line-limit", "fetch-spin", "harness-failed")
 STREAM_C03 = ("ack-not-completed",)
 STREAM_C01 = ("nack-completed",)
-STREAM_C04 = ("zero-deadline-not-immediate", "lease-lost-at-stream-end")
+STREAM_C04 = ("zero-deadline-not-immediate", "lease-lost-at-stream-end", "lease-violated")
 
 
 def _part_stream(ctx, own):
@@ -1150,7 +1173,7 @@ CHECKS = {
                                   "removal of dead rows only, and convergence"]),
     "C11": dict(
         props=["C11"],
-        parts=[part_fetch_diff, stream_part(STREAM_C11)],
+        parts=[part_fetch_diff, part_adapter, stream_part(STREAM_C11)],
         rule="(1) byte budget of one fetch: GetSubscriptionMessages(MaxMessages, MaxBytes, MaxBytesStrict) on databases with generated size mixes (2..400 bytes, limits below / at / above message sizes) "
              "against Streamer.fetch evaluated in Coq; (2) the production MessageStreamer (configured as the gRPC handler does) on a real database with a scripted client - limits 1..5 messages and "
              "20..100000 bytes, size mixes, stream acks, stream nacks (Nack list and zero deadline), external Acknowledge, publishes, waits; every fourth scenario through the real StreamingPull RPC; "
@@ -1177,7 +1200,7 @@ CHECKS = {
     "C03": dict(
         props=["C03", "Tie"],
         parts=[engine_part("delivery", 40, 600, 45, claim_c03, ["ack_effective", "ack_noop", "modack_effective", "nack_rescheduled"], monitors=("acked-redelivered",)),
-               stream_part(STREAM_C03),
+               stream_part(STREAM_C03), part_adapter,
                engine_part(("bulk520", "bulk1100"), 1, 1, 30, claim_c03, ["ack_effective"])],
         parallel=True,
         rule="[+ stream part: ids acknowledged on a stream / outside it / on a second stream of a reconnecting client are completed in the database; bulk profile: Acknowledge calls with exactly 500 / 499 / the remaining ids of 520 (thorough 1100) leased deliveries] same engine; owned projection: Acknowledge / ModifyAckDeadline / stream ack+nack steps (duplicate, stale, foreign, garbage ids; nack and deadline changes after ack); "
